@@ -218,6 +218,8 @@ class VEngine(Engine):
         self.entry_state = State(st.pc, dict(env))
         # preconditions
         for cl in c.requires:
+            if not self.rel(cl):
+                continue
             g = self.eval_clause(cl, st, pre=self.entry_state, polarity=-1)
             st.pc = z3.And(st.pc, g)
         for cl in c.assume:
@@ -241,6 +243,8 @@ class VEngine(Engine):
             post.env["result"] = acc_v
             self.covers.append((qual + "::normal-exit-reachable", post.pc))
             for cl in c.ensures:
+                if not self.rel(cl):
+                    continue
                 g = self.eval_clause(cl, post, pre=self.entry_state, polarity=1)
                 self.oblige("ensures::" + cl.name, post, g, "ensures", cl.top, cl.props, fi.node, cl)
             if c.modifies is not None and c.check_frame:
@@ -323,11 +327,12 @@ class VEngine(Engine):
                 self.oblige("%s::%s" % (name, cl.name), x.st, g, "raises", cl.top, cl.props or ("C10",), fi.node, cl)
 
 
-def verify_function(index, registry, qual, models=None):
+def verify_function(index, registry, qual, models=None, pid=None):
     if models is None:
         from contracts.models import MODELS as models
     cx = set_ctx(Ctx())
     eng = VEngine(index, registry, models)
+    eng.pid = pid
     t0 = time.time()
     obs = eng.verify(qual)
     return eng, obs, cx, time.time() - t0
